@@ -730,3 +730,37 @@ def archive_check(world, graph, pre, store_skips, rng, schedules=ARCHIVE_SCHEDUL
             fails.append((name, "loaded archive (pre-populated %s): %s invoked the component bodies %s, dr.run %s (not invoked by dr.run: %s)"
                           % ([x for x, _ in pre], name, calls, ref_calls, extra)))
     return fails, rows
+
+
+class firing_budget(object):
+    """
+    For evaluations of the DEFAULT graph (no world to tell foreign components by): a process-wide count of observer firings;
+    more than `limit` in one schedule stops it (Abort).  limit = a few times the length of the default order: every entry
+    point fires each component of it once.
+    """
+
+    def __init__(self, limit, broker=None):
+        import threading
+        self.limit, self.broker, self.n, self.lock, self.why = limit, broker, 0, threading.Lock(), None
+
+    def _obs(self, comp, broker):
+        with self.lock:
+            self.n += 1
+            over = self.n > self.limit
+        if over:
+            self.why = "more than %d components were fired in one call (the default order has a third of that)" % self.limit
+            raise Abort(self.why)
+
+    def __enter__(self):
+        dr.add_observer(self._obs, dr.ComponentType)
+        if self.broker is not None:
+            self.broker.add_observer(self._obs, dr.ComponentType)
+        return self
+
+    def __exit__(self, *a):
+        for reg in (getattr(dr, "TYPE_OBSERVERS", None), getattr(self.broker, "observers", None)):
+            try:
+                reg[dr.ComponentType].discard(self._obs)
+            except Exception:
+                pass
+        return False
